@@ -26,6 +26,19 @@ CHECKS["C14"] = ("other", "E2 schema gate trees vs gen/resources/frames.json per
                  "Schema half is proof-shaped (every struct x version class compared with the field table); values/validity/import decided structurally by positional agreement. Reported as `other`; known finding F1 (field-less End struct for 3.0-3.6) is outstanding.",
                  "arrow2 StructArray::new/into_data order and length semantics; frames.json is the table the statement names", "3 C14")
 
+CHECKS["C11"] = ("other", "dataflow rule on HashingReader::read (hashed slice = buf[..n] of the inner read), who-may-call (Xxh3::update, raw Read::read), control dependence of the seek on the hash flag, E6 decoding of the digest format template",
+                 "Structural; proof modulo xxhash-rust: the digest covers exactly the bytes returned by the inner reader, for every fragmentation, because the wrapper is the only raw reader and hashes exactly what it returns.",
+                 "xxhash-rust implements XXH3-64; std read_exact/io::copy tolerate short reads; ownership forbids reads after into_digest", "3 C11")
+CHECKS["C16"] = ("other", "E6 grammar-table agreement between the UBJSON reader's literal match arms/reads and the writer's emitted token sequences; resolved representation of serde_json::Map (IndexMap) from the type-checked program",
+                 "Structural: marker bytes, widths, endianness, nesting discipline, top-level key bytes and ordering containers agree on both sides; byte equality for all trees is not decided.",
+                 "serde_json preserve_order semantics; String::from_utf8/Display are byte-preserving", "3 C16")
+CHECKS["C18"] = ("other", "ordered-effects rule over the writer's tar_append sites with their guards; const-table comparison of FILE_SIGNATURE; who-may-call determinism rule; reader dispatch shape; E5 decision of assert_current_version",
+                 "Structural: entry order and presence guards, signature, same-source JSON/raw pairs, determinism of the writer's reachable set, reader tolerance of unknown entries and version rejection are decided from the program's shape.",
+                 "tar::Builder::append order; serde_json determinism; Header::new_gnu zero-initialised", "3 C18")
+CHECKS["C19"] = ("other", "who-may-call/decoder-choice rule, dataflow rule for the NUL truncation slice, E6 extraction of fix_char's match as (interval, affine map) rows compared code point by code point with the specified table",
+                 "Structural: decoder variant, truncation point, whole-field slicing and the normalisation table (incl. idempotence and scalar closure by interval arithmetic) are decided; Shift-JIS tables are encoding_rs's.",
+                 "encoding_rs Shift-JIS correctness; Iterator::position semantics", "3 C19")
+
 PENDING = {}
 
 NOT_APPLICABLE = {
